@@ -148,6 +148,27 @@ CHECKS = {
         "dict root for a seventh of the histories, 15000 schedules."),
   technique="TLC model checking + spec-history replay + TLC trace validation",
  ),
+ "C02": dict(
+  level="model_checking",
+  design_ref="DESIGN.md section 5, C02",
+  text=("ExportSpec states that the exported sequence is the source "
+        "restricted to the mask (everything when filtering is off) and "
+        "transcribes both routes of yield_filtered_array_stacks (index-array "
+        "slicing, reused chunk buffer); TLC proves for every mask of sources "
+        "up to MaxN events and chunk lengths 1..3 that the concatenated "
+        "stacks are exactly the selection. The same enumeration (all masks "
+        "of small sources + prefix/suffix/strided masks straddling one and "
+        "two chunks of a 23-event source, filtered and unfiltered) is "
+        "exported from HDF5, in-memory (incl. a non-scalar temporary "
+        "feature), hierarchy-child and basin-backed sources; the .rtdc is "
+        "re-read and decoded to tokens (scalar, image, mask, contour, "
+        "trace), metadata/logs/tables are compared and the .tsv parsed; "
+        "tdms fixtures are exported and compared by value."),
+  note=("export chunk forced to 10 events; avi/fcs exporters are outside "
+        "the property; tdms fixtures are truncated, only their complete "
+        "features are used; quick MaxN=6, thorough MaxN=8."),
+  technique="TLC model checking + TLC-enumerated cases replayed on real exports",
+ ),
 }
 
 NOT_YET = "check not built yet (work in progress; see DESIGN.md section 5)"
